@@ -238,6 +238,26 @@ fn real_main() -> Result<i32, String> {
     match cmd {
         "l2" => cmd_l2(&a),
         "shard" => cmd_shard(&a),
+        "mainshard" | "freshshard" => {
+            let sa = shard::ShardArgs {
+                seed: a.u64("--seed", 1)?,
+                from: a.u64("--from", 0)?,
+                to: a.u64("--to", 100)?,
+                stride: a.u64("--stride", 1)?,
+                offset: a.u64("--offset", 0)?,
+                thorough: a.has("--thorough"),
+                out: a.kv.get("--out").cloned().ok_or("--out missing")?,
+                dump_hashes: false,
+            };
+            shard::mainshard(sa, cmd == "mainshard")
+        }
+        "mainrun" | "freshrun" => shard::mainrun(
+            a.u64("--seed", 1)?,
+            a.u64("--idx", 0)?,
+            a.has("--thorough"),
+            a.kv.get("--out").map(|s| s.as_str()).unwrap_or("/verif/sim/target/tmp"),
+            cmd == "mainrun",
+        ),
         "replay" => cmd_replay(&a),
         "minimize" => cmd_minimize(&a),
         "gen" => cmd_gen(&a),
